@@ -12,7 +12,7 @@ from decimal import Decimal
 from lib import heap, monitors, reflex, refparser, refeval
 
 ID = 'C10'
-TECHNIQUE = 'runtime monitor: scope-stack invariants at every node exit/raise (M1+M4), independent re-resolution of every lookup, R2 differential'
+TECHNIQUE = "runtime monitor: scope-stack invariants at every node exit/raise (M1+M4), independent re-resolution of every lookup, R2 differential; coverage-guided programs (atheris) under the scope monitors, the repository's tests"
 RULE = ('scoping scenarios: programs of 2-9 statements over a small pool of names bound at one, two or all three levels (builtins len/str/max/upper/sum, host names, '
         'lambda parameters/locals): lambdas with free names resolved at call time, parameters named like builtins and host names, calls with too few/too many arguments, '
         'top-level (re)assignment of builtin/host names between two calls of the same lambda, nested and re-entrant (recursive) calls, lambdas driven by map/filter/reduce/sorted '
@@ -22,6 +22,7 @@ RULE = ('scoping scenarios: programs of 2-9 statements over a small pool of name
 RULE += ' Host callback reenter(k) evaluates another program on the same parser with its own names while the call is in flight (reference side: R2).'
 RULE += ' Host values include a wildcard object equal to everything and one equal to nothing (falsy), also bound over the builtin max and passed as lambda arguments.'
 RULE += " One more workload: the repository's own test-suite, run in a worker process against the sandbox copy with this check's monitors installed (the tests' assertions are not the oracle, the monitors are)."
+RULE += ' Coverage-guided programs: one atheris/libFuzzer process per worker (5 s quick, 100 s thorough) runs generated program texts under the scope monitors alone (innermost-first lookups, depth at exit/raise of every node equal to its entry, outer bindings untouched, exactly the host scope left, builtin table unchanged); programs on which an unlisted violation was recorded there are judged again by the worker.'
 ASSUMPTIONS = ['R2 (lib/refeval.py) defines the expected result and host names: innermost-first resolution, top-level assignments written to the host mapping, parameters and '
                'lambda-local assignments vanish with the call',
                'try_(f, args...) is a host callback that calls the program lambda and swallows any Exception']
@@ -246,6 +247,7 @@ def cases(ctx):
     rnd = ctx.rnd
     if ctx.shard == ctx.nshards - 1:
         yield ('repo-tests',)
+    yield ('cgf', rnd.getrandbits(30), ctx.scale(5, 100))          # coverage-guided programs under the scope monitors, one fuzzing process per worker
     if ctx.shard == 0:
         for src, body in [('shout = v => upper(v)\nshout("x")\nupper = v => "shadowed"\nshout("x")', None), ('g = (s, len) => len(s)\n[g("ab"), g("ab", v => 99)]', None),
                           ('tri = n => 0 if n == 0 else tri(n - 1) + n\ntri(5)', None), ('f = v => nope + v\ntry_(f, 1)\nz = 5\nz', None),
@@ -256,10 +258,90 @@ def cases(ctx):
         yield ('gen', rnd.getrandbits(48))
 
 
+def case_deadline(case):
+    return case[2] + 400 if case[0] == 'cgf' else CASE_DEADLINE
+
+
+def run_text(case, ctx):
+    """any program text under the scope monitors alone (no reference evaluator needed): every lookup resolves to the innermost scope that binds the name, the scope
+    stack is as deep at the exit or raise of every node as at its entry, no assignment inside a lambda call alters an outer binding, exactly the host scope is
+    left at the end, the builtin table is untouched"""
+    src = case[1]
+    W, M1, M4 = ctx.W, ctx.M1, ctx.M4
+    inn = host(ctx)
+    ctx.recursion_seen = False
+    W.case, W.src, W.stack, W.viol, W.recursion = case, src, [], None, False
+    M1.reset()
+    M1.lambdas.clear()
+    M4.begin()
+    try:
+        ctx.P.eval(src, inn, None, 2000)
+    except RecursionError:
+        M4.end()
+        return
+    except Exception:
+        pass
+    events = M4.end()
+    if W.recursion or ctx.recursion_seen:
+        return
+    ctx.count('given_texts_run_under_the_scope_monitors')
+    detail = {'src': src[:400]}
+    for e in events:
+        if e[0] == 'get' and not e[5]:
+            ctx.violation('a lookup did not resolve to the innermost scope that binds the name', case, detail=dict(detail, name=str(e[2]), stack_depth=e[3], innermost_binding_scope=e[4]))
+            return
+    if W.viol:
+        ctx.violation(W.viol[0], case, finding=W.viol[1], detail=dict(detail, **W.viol[2]))
+        if W.viol[1] is None:
+            return
+    outer = next((e[1] for e in events if e[0] == 'push'), None)
+    d = 0
+    for e in events:
+        if e[1] != outer:
+            continue
+        if e[0] == 'push':
+            d += 1
+        elif e[0] == 'pop':
+            d -= 1
+    if outer is not None and d != 1:
+        ctx.violation('at the end of eval the scope stack holds %d scopes above the builtins (expected exactly the host scope)' % d, case, detail=detail)
+        return
+    if [(k, id(v)) for k, v in ctx.functions.FUNCTIONS.items()] != ctx.table_snapshot:
+        ctx.violation('the builtin table was modified', case, detail=detail)
+        ctx.functions.FUNCTIONS.clear()
+        ctx.functions.FUNCTIONS.update(ctx.table)
+
+
+def run_cgf(case, ctx):
+    """coverage-guided programs: an atheris/libFuzzer process runs THIS check's run_text (scope monitors alone) over the instrumented sandbox copy; programs on which
+    an unlisted violation was recorded there are judged again here"""
+    from lib import cgdriver
+    _, seed, seconds = case
+    r = random.Random(seed)
+    seeds = ['f = x => x + a\nf(1)', 'g = (s, len) => len(s)\ng("ab", v => 99)', 'h = n => (h(n - 1) + n) if n > 0 else 0\nh(3)', 'try_(v => nope, 1)\nx', 'map([1, 2], a => map([3], b => a + b))',
+             'f = v => [hv, v]\nhv = 5\nf(1)', 'x = 1\nf = x => x\nf(2)\nx', 'hm(v => try_(w => w + nope, v), 2)', 'len = 3\nf = len => len\nf(1)', 'reduce([1, 2, 3], (a, b) => a + b)', 'sorted([3, 1], hv => 0 - hv)\nhv']
+    for _ in range(8):
+        seeds.append('\n'.join(gen_program(r)))
+    out = cgdriver.run(ctx, 'check:C10:text', seed, seconds, seeds)
+    if out is None:
+        return
+    st, fired, _slow = out
+    for text in fired:
+        ctx.count('programs_on_which_the_oracle_fired_in_the_fuzzing_process')
+        before = len(ctx.violations)
+        run_text(('text', text), ctx)
+        if len(ctx.violations) == before:
+            ctx.violation('coverage-guided fuzzing: a violation was recorded in the fuzzing process but not when the program was judged again here', ('text', text), detail={'src': text[:300]})
+
+
 def run_case(case, ctx):
     from smartquery.exceptions import ParserError
     from smartquery.ast_ops import LambdaOp, NameOp
     from checks.c07 import same, names_same
+    if case[0] == 'cgf':
+        return run_cgf(case, ctx)
+    if case[0] == 'text':
+        return run_text(case, ctx)
     if case[0] == 'repo-tests':
         # the repository's own tests as a workload for the scope monitors (depth at entry == depth at exit/raise of every node, outer bindings untouched,
         # builtin table unchanged); the tests' assertions are not the oracle, the monitors are
